@@ -67,6 +67,14 @@ func c04CleanModuloGas(prog *refpvm.Program, blob []byte, w *c01World) (clean bo
 	if v.ok || v.kind == "gas" {
 		return true, v.ip, n, ""
 	}
+	if v.im.kind == refpvm.OOG {
+		// the reference finishes within n <= 12 units but the implementation reports
+		// out-of-gas although 1000 units were supplied: that *is* a gas clause ("stops with
+		// out-of-gas precisely when the remaining gas cannot pay for the next step"), not a
+		// difference to leave to C01. Judged with the limits 0..n+1 only (no huge limits: the
+		// implementation may really be spinning).
+		return true, v.ip, n, "oog-with-ample-gas"
+	}
 	return false, v.ip, n, "c01-divergent"
 }
 
@@ -126,7 +134,9 @@ func c04CheckProg(r *vlib.Run, blob []byte, w *c01World, std *c01World, note str
 		for g := 0; g <= n+1; g++ {
 			gases = append(gases, uint64(g))
 		}
-		gases = append(gases, c04Huge[:3]...)
+		if why == "" {
+			gases = append(gases, c04Huge[:3]...)
+		}
 		for _, g := range gases {
 			r.Transition()
 			kind, _, v := c04Judge(prog, blob, ip, w, g, false)
@@ -164,7 +174,7 @@ func c04CheckProg(r *vlib.Run, blob []byte, w *c01World, std *c01World, note str
 	for g := 0; g <= n3+1; g++ {
 		gases = append(gases, uint64(g))
 	}
-	if clean3 { // the implementation is known to stop within n3 steps: huge limits are safe
+	if clean3 && why3 == "" { // the implementation is known to stop within n3 steps: huge limits are safe
 		gases = append(gases, c04Huge...)
 	}
 	pclass := "psim:" + why3
@@ -399,6 +409,14 @@ func TestVerif_C04(t *testing.T) {
 		}
 	}
 	c01ProgSweep(r, 3, &idx, run)
+	if !r.Thorough() {
+		// quick: the jump units of the single-instruction sweep (jump_ind, load_imm_jump,
+		// load_imm_jump_ind with z = 2): register operands that coincide, jump-table targets
+		// including the instruction's own pc ("a self loop on the first step only")
+		c01UnitFilter = func(u c01OpUnit) bool { return (u.op == 50 || u.op == 180) && u.z == 2 || u.op == 80 || u.op == 40 }
+		c01SingleSweepQuickLattice(r, &idx, run)
+		c01UnitFilter = nil
+	}
 	if r.Thorough() {
 		c01ProgSweep4(r, c04Sub, &idx, run)
 		c01SingleSweepQuickLattice(r, &idx, run)
